@@ -894,7 +894,7 @@ fn overlay(base: &Image, old_root: &str, _delta: &Image, nroot: &str, nrecs: &[R
 
 pub fn c13(args: &Args) -> i32 {
     quiet_panics();
-    let run = Run::new(args, "fault_enumeration", 110.0, 3000.0);
+    let run = Run::new(args, "fault_enumeration", 110.0, 1500.0);
     if !recorder_active() {
         run.machinery_error("file-system recorder not active (LD_PRELOAD=shim/fsshim.so and VERIF_FS_ROOT=/dev/shm/verif- are set by ./check)".into());
         return run.finish();
